@@ -422,7 +422,8 @@ Inductive op :=
 | ORebalance (apply : bool)
 | OIdeal (total : N) (slots : list N)
 | OSelect (largest : bool) (cur tgt : list (N * N)) (cands : list N)
-| OBuildInit (slots count : N).
+| OBuildInit (slots count : N)
+| OClone.                      (* t = t.Clone(): later operations run on the copy *)
 
 (* Observed tables are printed compactly: the assignment run-length encoded, and
    a table relative to the previously observed one as "same" / "these hash slots
@@ -519,6 +520,7 @@ Definition model_step (t : table) (o : op) : res * table :=
       (RSlot (if largest then select_largest_surplus_slot cur tgt cands
               else select_smallest_deficit_slot cur tgt cands), t)
   | OBuildInit slots count => (RRanges (build_initial_hash_slot_table slots count), t)
+  | OClone => (RNone, t)
   end.
 
 Definition after (prev : table) (st : step) : table := unsnap prev (s_snap st).
@@ -648,7 +650,7 @@ Definition step_code (s : table) (st : step) : N :=
     | OLookup hs, RSlot v => if table_eqb s' s && (v =? lookup_obs s hs) then 0 else 1
     | OOwners slot, RList l => if table_eqb s' s && nlist_eqb l (indices_of 0 (t_assign s) slot) then 0 else 1
     | OAssigned, RList2 _ _ | OGetMig _, RMig _ | OIdeal _ _, RMap _
-    | OSelect _ _ _ _, RSlot _ | OBuildInit _ _, RRanges _ =>
+    | OSelect _ _ _ _, RSlot _ | OBuildInit _ _, RRanges _ | OClone, RNone =>
         if table_eqb s' s then 0 else 1
     | OAdd n apply, RPlan p => plan_obs_code s s' (PAdd n) apply p
     | ORemove x apply, RPlan p => plan_obs_code s s' (PRemove x) apply p
